@@ -221,6 +221,7 @@ func init() {
 		"Structural necessary conditions of smart clipping: no certain fault for any 2-d kind x degenerate shape x both orientations (abstract interpretation); member loops. Region equality is NOT decided.",
 		ruleShapeFaults(shapeConfig{label: "smartclip", keep: inPkgs("clip/smartclip."), floor: 4}),
 		ruleMemberLoops(inPkgs("clip/smartclip."), 10, 0),
+		ruleLoopShapes(inPkgs("clip/smartclip."), 0, 1),
 		ruleRegionCodes(append(append([]regionFunc(nil), clipRegionFuncs...), regionFunc{"clip/smartclip", "bitCodeOpen", true}), false),
 		ruleCornerTables,
 		ruleEndpointOrder,
